@@ -110,11 +110,19 @@ def ops_for(fnlabel):
     return []
 
 
-def _parse_witness(out):
-    """Parse the first WITNESS block of `replay grid` output."""
+def _parse_witness(out, want_note=None):
+    """Parse the first WITNESS block of `replay grid` output (the first whose note mentions one of `want_note`, if given)."""
     lines = out.split('\n')
     for i, l in enumerate(lines):
         if l.startswith('WITNESS '):
+            if want_note:
+                blk = []
+                j = i + 1
+                while j < len(lines) and lines[j].startswith('  '):
+                    blk.append(lines[j])
+                    j += 1
+                if not any(w in b for b in blk if b.strip().startswith('note=') for w in want_note):
+                    continue
             op = re.search(r'op=(\S+)', l).group(1)
             args = {}
             obs = exp = None
@@ -128,6 +136,8 @@ def _parse_witness(out):
                     obs = s[len('observed='):]
                 elif s.startswith('expected='):
                     exp = s[len('expected='):]
+                elif s.startswith('note=') and 'panicked at' in s:
+                    obs = (obs or '') + ' [' + s[len('note='):] + ']'
                 j += 1
             return dict(op=op, input=args, observed=obs, expected=exp)
     return None
@@ -135,14 +145,22 @@ def _parse_witness(out):
 
 def search(pid, ob, repo, scratch):
     ops = ops_for(ob.get('fn', ''))
+    fn = ob.get('fn', '')
+    if fn.startswith('eval_') or fn.startswith('model::Context::') or fn in ('document', 'query'):
+        # evaluator skeleton: the witness is a whole query through xml_xpath::query on a real parsed document
+        ops = {'C19': ['xpath.query.ctx_reuse'], 'C07': ['xpath.query.order'], 'C06': ['xpath.query.no_panic']}.get(pid, [])
     if not ops:
         return None
     exe = build(repo, scratch)
     for op in ops:
         env = dict(os.environ)
         env['REPLAY_POLICY'] = 'whole' if pid == 'C15' else 'fragment'
-        p = subprocess.run([exe, 'grid', op, '3'], capture_output=True, text=True, timeout=900, env=env)
-        w = _parse_witness(p.stdout)
+        # a safety obligation names its failing sites (file:line): prefer a witness that panics exactly there
+        sites = [m.group(1) for s in (ob.get('sites') or []) for m in [re.search(r'@([\w/\.]+:\d+)$', s)] if m]
+        p = subprocess.run([exe, 'grid', op, '40' if sites else '3'], capture_output=True, text=True, timeout=900, env=env)
+        w = _parse_witness(p.stdout, sites) if sites else None
+        if w is None:
+            w = _parse_witness(p.stdout)
         if w:
             w['replayed'] = f'real code of {repo} called through xmlrs-replay grid; first disagreement with the executable mirror of the specification'
             w['grid_summary'] = p.stdout.split('\n')[0]
